@@ -5,7 +5,7 @@ import warnings
 
 from .common import Oracle, Slow, Suite, deadline, errname, merge
 
-GEN_UNITS = ["Handlers", "PyUnicode"]
+GEN_UNITS = ["Handlers", "PyUnicode", "ContextPolicy"]
 LEAN_TARGETS = ["PasslibVerif.Props.C04"]
 ASSUMPTIONS = [
     "facts about individual hash strings (which schemes claim it, its parsed cost, scheme-specific flags, whether the password verifies) are atoms supplied by the real hashers; their correctness is C01/C07/C17",
